@@ -1573,6 +1573,8 @@ func (dsc *dataStoreCommand) linsert(keyName string, before bool, pivot, element
 		dsc.linsertAfterUnlocked(list, pivotItem, []byte(element))
 	}
 	dsc.modifiedUnlocked(keyName)
+	// an element arrived: a client still waiting on this list is woken, as for a push
+	dsc.ds.unblockListUnlocked(keyName, 1)
 
 	output.data = respInt(list.count)
 	return
@@ -3254,6 +3256,7 @@ func (dsc *dataStoreCommand) sort(sourceKeyName, byPattern, destKeyName string, 
 			str, _ := element.toString()
 			dsc.rpushUnlocked(destKeyName, list, []byte(str))
 		}
+		dsc.ds.unblockListUnlocked(destKeyName, list.count)
 
 		output.data = respInt(list.count)
 	} else {
